@@ -5,15 +5,16 @@ from . import parts
 
 def run(tier):
     ck = common.Check('C05', tier)
-    res = parts.run_parts(ck, tier, ir_parts=('ir_strong',))
+    def keep(p, x):
+        if p != 'ir_alloc':
+            return True
+        # leak-freedom of the failed call (R04.1 on unwind exits) is part of the statement ("nothing leaked")
+        return (x.ok and x.sample and x.sample.get('exit') == 'unwind') or (not x.ok and x.key.get('exit') == 'unwind')
+    res = parts.run_parts(ck, tier, ir_parts=('ir_strong', 'ir_alloc'), rule_filter=keep)
     r = res.get('ir_strong', [])
     ck.floor('public entry points walked', sum(x['res']['entry_points'] for x in r), 200 if tier == 'quick' else 2000)
     ck.floor('complete paths judged', sum(x['res']['paths'] for x in r), 4000 if tier == 'quick' else 40000)
     ck.extra['single_pass_overloads_not_covered'] = sum(x['res']['single_pass_skipped'] for x in r)
-    # leak-freedom of the failed call (R04.1 on unwind exits) is part of the statement ("nothing leaked")
-    res2 = parts.run_parts(ck, tier, ir_parts=('ir_alloc',),
-                           rule_filter=lambda p, x: (x.ok and x.sample and x.sample.get('exit') == 'unwind') or
-                           (not x.ok and x.key.get('exit') == 'unwind'))
     ck.assumptions += ['GCH_NO_STRONG_EXCEPTION_GUARANTEES is not defined (the documented opt-out)',
                        'only pointers based on the data pointer observed on entry address the container\'s elements at public entry points',
                        'construct-only helpers (uninitialized_*) destroy only what they built (checked separately as R03.2)']
